@@ -8,7 +8,7 @@ CHECKS = {
     "C32": {
         "text": "Proxy.tla models resolveClientIPAndScheme as a result operator over symbolic classes of (trust flag, CIDR "
                 "configuration, peer, CF-Connecting-IP, X-Forwarded-For, X-Forwarded-Proto, base scheme). TLC proves the "
-                "property on the intended design for all 17 280 cases, emits every case, the harness executes each on the "
+                "property on the intended design for all 23 040 cases (every header combination x four list configurations, every one of the 64 entry-class lists x a reduced header set), emits every case, the harness executes each on the "
                 "real LuaAuthorizer (observed from inside the Lua script) and TLC validates every observed result against "
                 "the spec. Exhaustive over the symbolic input space, so the level is model checking + conformance.",
         "note": "one concrete representative per symbolic class (harness/cmd/proxy); getRemoteIP parsing of RemoteAddr is "
